@@ -16,7 +16,14 @@
     `TokenFile.delete()` is modelled as an atomic delete-if-exists.  The real method tests `is_file()` and
     then calls `unlink()`; a watcher of another process deleting in between is linearised as
     `reclaim` followed by a `release` that finds nothing (the check exercises that window on the real
-    code with the `racedel` fault; on the current source the second `unlink` raises: finding F26).
+    code with the `racedel` fault; before the repair 4d4f657 the second `unlink` raised: finding F30).
+
+    `active`: a job is active from the moment its token file is created until its process has ended /
+    its start has been abandoned (`jobGone`) or its scheduler has given the token back (`release`),
+    whichever comes first: an aborted start releases what it had taken in the same loop callback, while
+    the job lock is still held (`aio_start`, `locks.release()` in the `LockError` handler), a completed job
+    releases after its process has ended.  A watcher thread can only remove the file of a job that is not
+    active (it waits for the job lock and the process).
 
     One step = one critical section of the real code (or one half of `acquire`, which is split at
     the point between `open` and `write` of `TokenFile.create`), or one environment event. -/
@@ -54,7 +61,7 @@ structure St where
   disk : List (Name × Bool) := []          -- (name, written)
   procs : Proc → PSt := fun _ => {}
   ipc : Option (Proc × Name) := none       -- holder of `token.lock` in the middle of `acquire`
-  active : List Name := []                 -- jobs whose job lock is held or whose process is alive
+  active : List Name := []                 -- jobs that hold the token: taken, and neither ended nor given back
 
 inductive Ev where
   | acquireBegin (p : Proc) (f : Name)   -- `acquire` up to `path.open("wt")`
@@ -147,7 +154,7 @@ def apply (cfg : Cfg) (s : St) : Ev → St × Out
     let P := recount cfg s.disk (s.procs p)
     if f ∈ P.cache then
       let P := { P with cache := P.cache.erase f, avail := P.avail + (cfg.req f : Nat) }
-      ({ s with disk := rmFile f s.disk, procs := broadcast (upd s.procs p P) (.deleted f) }, { notify := true })
+      ({ s with disk := rmFile f s.disk, procs := broadcast (upd s.procs p P) (.deleted f), active := s.active.erase f }, { notify := true })
     else ({ s with procs := upd s.procs p P }, { ok := false, notify := cfg.notifyMissing })
   | .fsEvent p =>
     let P := s.procs p
@@ -173,7 +180,7 @@ def ipcName (s : St) : Option Name := s.ipc.map Prod.snd
 def enabled (s : St) : Ev → Bool
   | .acquireBegin p f => s.ipc.isNone && !(s.procs p).dropped && !(names s.disk).contains f && !s.active.contains f
   | .acquireEnd p => ipcProc s == some p
-  | .release p f => s.ipc.isNone && !(s.procs p).dropped && !s.active.contains f
+  | .release p f => s.ipc.isNone && !(s.procs p).dropped
   | .fsEvent p => (s.procs p).alive && !(s.procs p).dropped && !(s.procs p).pending.isEmpty && ipcProc s != some p
   | .reclaim p f => !(s.procs p).dropped && (s.procs p).watch.contains f && !s.active.contains f
   | .jobGone f => s.active.contains f && ipcName s != some f
